@@ -29,7 +29,7 @@ use crate::{
 	index::{Address, PlanOutcome},
 	log::{Log, LogAction},
 	multitree::{Children, NewNode, NodeAddress},
-	options::{Options, CURRENT_VERSION},
+	options::Options,
 	parking_lot::{
 		Condvar, Mutex, MutexGuard, RwLock, RwLockUpgradableReadGuard, RwLockWriteGuard,
 	},
@@ -1723,19 +1723,22 @@ impl Db {
 
 	// We open the DB before to check metadata validity and make sure there are no pending WAL
 	// logs.
-	fn precheck_column_operation(options: &mut Options) -> Result<[u8; 32]> {
+	// Returns the salt and the format version of the database.
+	fn precheck_column_operation(options: &mut Options) -> Result<([u8; 32], u32)> {
 		let db = Db::open(options)?;
 		let salt = db.inner.options.salt;
+		let version = db.inner.db_version;
 		drop(db);
-		Ok(salt.expect("`salt` is always `Some` after opening the DB; qed"))
+		Ok((salt.expect("`salt` is always `Some` after opening the DB; qed"), version))
 	}
 
 	/// Add a new column with options specified by `new_column_options`.
 	pub fn add_column(options: &mut Options, new_column_options: ColumnOptions) -> Result<()> {
-		let salt = Self::precheck_column_operation(options)?;
+		let (salt, version) = Self::precheck_column_operation(options)?;
 
 		options.columns.push(new_column_options);
-		options.write_metadata_with_version(&options.path, &salt, Some(CURRENT_VERSION))?;
+		// Existing columns keep the format they were written in.
+		options.write_metadata_with_version(&options.path, &salt, Some(version))?;
 
 		Ok(())
 	}
@@ -1743,7 +1746,7 @@ impl Db {
 	/// Remove last column from the database.
 	/// Db must be close when called.
 	pub fn drop_last_column(options: &mut Options) -> Result<()> {
-		let salt = Self::precheck_column_operation(options)?;
+		let (salt, version) = Self::precheck_column_operation(options)?;
 		let nb_column = options.columns.len();
 		if nb_column == 0 {
 			return Ok(())
@@ -1751,7 +1754,7 @@ impl Db {
 		let index = options.columns.len() - 1;
 		Self::remove_column_files(options, index as u8)?;
 		options.columns.pop();
-		options.write_metadata(&options.path, &salt)?;
+		options.write_metadata_with_version(&options.path, &salt, Some(version))?;
 		Ok(())
 	}
 
@@ -1762,12 +1765,12 @@ impl Db {
 		index: u8,
 		new_options: Option<ColumnOptions>,
 	) -> Result<()> {
-		let salt = Self::precheck_column_operation(options)?;
+		let (salt, version) = Self::precheck_column_operation(options)?;
 		Self::remove_column_files(options, index)?;
 
 		if let Some(new_options) = new_options {
 			options.columns[index as usize] = new_options;
-			options.write_metadata(&options.path, &salt)?;
+			options.write_metadata_with_version(&options.path, &salt, Some(version))?;
 		}
 
 		Ok(())
